@@ -531,6 +531,7 @@ def prove_close(ctx: Ctx, name, fn, args, sp: Space, *, eps=1e-9, select=None, s
       rows.append((int(rid), const, cols, vals, slack, float(taus[rid]), L, H))
     nrows += int(selflat.sum())
     bounds_ = [0, 1, 9] + list(range(9 + batch, len(rows) + batch, batch))
+    n_unknown = 0
     for i, j in zip(bounds_[:-1], bounds_[1:]):
       chunk = rows[i:j]
       if not chunk:
@@ -546,6 +547,9 @@ def prove_close(ctx: Ctx, name, fn, args, sp: Space, *, eps=1e-9, select=None, s
         if core:
           ctx.error(name, f'solver verdict {verdict}')
         ok = False
+        n_unknown += 1
+        if n_unknown >= 2:
+          break             # the clause is inconclusive already; do not spend the pool budget on further undecided batches
         continue
       # sat: which rows?
       import z3
